@@ -763,6 +763,18 @@ class Exec:
         if len(e.generators) != 1 or e.generators[0].is_async: return V('opaque')      # nested comprehension: no information
         g = e.generators[0]
         src = self.ev(g.iter, st)
+        if src.kind == 'comp' and src.x['conds'] and isinstance(g.target, ast.Name) and not g.is_async:
+            # a comprehension over a FILTERED comprehension: fuse the two  [h(n) for n in [f(b) for b in S if c(b)] if d(n)]  =
+            # [h(f(b)) for b in S if c(b) and d(f(b))]  (the inner list cannot be named element-wise)
+            import copy
+            inner = src; name = g.target.id
+
+            class _Sub(ast.NodeTransformer):
+                def visit_Name(self_, node):
+                    return copy.deepcopy(inner.x['elt']) if node.id == name else node
+            sub = lambda node: ast.fix_missing_locations(_Sub().visit(copy.deepcopy(node)))
+            return V('comp', None, src=inner.x['src'], target=inner.x['target'], elt=sub(e.elt), conds=list(inner.x['conds']) + [sub(c) for c in g.ifs],
+                     st=inner.x['st'], settype=False)
         if src.kind == 'comp' and not self.dry: src = self.materialise(st, src)        # a comprehension over a comprehension: name the inner list
         return V('comp', None, src=src, target=g.target, elt=e.elt, conds=g.ifs, st=st, settype=False)
 
